@@ -4,9 +4,11 @@ package props
 
 import (
 	"encoding/json"
+	"errors"
 	"flag"
 	"fmt"
 	"io"
+	"net/http"
 	"net/http/httptest"
 	"net/url"
 	"strings"
@@ -297,6 +299,24 @@ func genC20Req(t *rapid.T) c20Req {
 	return r
 }
 
+// c20BrokenWriter is a ResponseWriter whose Write always fails.
+type c20BrokenWriter struct {
+	h       http.Header
+	code    int
+	writes  int
+	onWrite func()
+}
+
+func (w *c20BrokenWriter) Header() http.Header { return w.h }
+func (w *c20BrokenWriter) WriteHeader(c int)   { w.code = c }
+func (w *c20BrokenWriter) Write(p []byte) (int, error) {
+	w.writes++
+	if w.onWrite != nil && w.writes == 1 {
+		w.onWrite()
+	}
+	return 0, errors.New("broken pipe")
+}
+
 func propC20HTTP(t *rapid.T) {
 	al := zap.NewAtomicLevelAt(zapcore.Level(rapid.IntRange(-1, 5).Draw(t, "initialLevel")))
 	core, logs := observer.New(al)
@@ -312,6 +332,42 @@ func propC20HTTP(t *rapid.T) {
 		req.Method = r.Method
 		if r.CType != "" {
 			req.Header.Set("Content-Type", r.CType)
+		}
+		if rapid.IntRange(0, 5).Draw(t, "brokenConnection") == 0 {
+			// the client is gone: writing the response fails. What the request did (or did not do) to the level
+			// stands, and a level change that happens while the response is being written is not undone.
+			bw := &c20BrokenWriter{h: http.Header{}}
+			concurrent := rapid.Bool().Draw(t, "levelChangedWhileResponding")
+			newLvl := zapcore.Level(rapid.IntRange(-1, 5).Draw(t, "concurrentLevel"))
+			if concurrent {
+				bw.onWrite = func() { al.SetLevel(newLvl) }
+			}
+			al.ServeHTTP(bw, req)
+			got := al.Level()
+			hist = append(hist, fmt.Sprintf("%s %s [%s] %q -> (response write fails)", r.Method, r.Target, r.CType, clipS(r.Body)))
+			failB := func(f string, a ...any) {
+				t.Fatalf("%s\nrequest %d over a broken connection: %s %s content-type %q body %q\nlevel before %v after %v\nhistory: %s", fmt.Sprintf(f, a...), i, r.Method, r.Target, r.CType, r.Body, before, got, strings.Join(hist, " | "))
+			}
+			switch {
+			case concurrent && bw.writes > 0:
+				if got != newLvl {
+					failB("the level was set to %v while the response was being written, afterwards it is %v", newLvl, got)
+				}
+			case r.Method == "PUT" && r.known && r.accept:
+				if got != r.lvl {
+					failB("a PUT naming the valid level %v leaves the level at %v", r.lvl, got)
+				}
+			case r.Method != "PUT" || (r.known && !r.accept):
+				if got != before {
+					failB("a request that names no valid level changed the level")
+				}
+			default:
+				if got < zapcore.DebugLevel || got > zapcore.FatalLevel {
+					failB("the level is now invalid")
+				}
+			}
+			sawReject = true
+			continue
 		}
 		rr := httptest.NewRecorder()
 		al.ServeHTTP(rr, req)
